@@ -33,8 +33,14 @@ class Repl(ScriptedSpawn):
         ScriptedSpawn.__init__(self, [], kind='t')
         self.answers, self.cuts = list(answers), list(cuts)
         self.lines, self.kills = [], []
+        self.tmos = []                   # the timeout handed to every prompt wait
         self.echo = False
         self.timeout = 5
+
+    def expect_exact(self, pattern_list, timeout=-1, searchwindowsize=-1, async_=False, **kw):
+        self.tmos.append(timeout)
+        return ScriptedSpawn.expect_exact(self, pattern_list, timeout=timeout, searchwindowsize=searchwindowsize,
+                                          async_=async_, **kw)
 
     def sendline(self, s=''):
         self.lines.append(s)
@@ -60,6 +66,15 @@ def _clean(x):
     return x.find(P1) < 0 and x.find(P2) < 0 and (x + P1[0]).find(P1) < 0 and (x + P2[0]).find(P2) < 0
 
 
+TMOS = [-1, 17, None]
+
+
+def _tmos_ok(child, shape, T):
+    """every wait for a prompt gets the caller's timeout; only the re-synchronisation after incomplete input uses 1 s"""
+    want = {0: [T, T], 1: [T, T, T], 3: [T, T, T], 2: [T, 1, T]}[shape]
+    return child.tmos == want
+
+
 @obligation(params=dict(o1=Text(2), o2=Text(2), o3=Text(2), c1=Int(0, 4), c2=Int(0, 4), c3=Int(0, 4), shape=Int(0, 3)),
             tags={2: 'two single-line commands', 3: 'a two-line command then a single-line one',
                   4: 'incomplete input: ValueError, then a normal command', 5: 'three lines, the middle one empty'},
@@ -67,8 +82,10 @@ def _clean(x):
             thorough=dict(params=dict(o1=Text(3), o2=Text(3), o3=Text(3), c1=Int(0, 5), c2=Int(0, 5), c3=Int(0, 5)),
                           timeout=3000, split=('shape', 'c1', 'c2')),
             note='shape 0: cmd; cmd   1: two-line cmd; cmd   2: incomplete cmd (continuation prompt) ; cmd')
-def Q1_commands(o1, o2, o3, c1, c2, c3, shape):
+def Q1_commands(o1, o2, o3, c1, c2, c3, shape, tmo=None):
     shape = pick(shape, 0, 3)
+    # the timeout convention the caller uses (-1 / a number / None) varies with the first cut position
+    T = TMOS[(pick(c1, 0, 4) if tmo is None else tmo) % 3]
     for o in (o1, o2, o3):
         if not _clean(o):
             return SKIP
@@ -85,29 +102,30 @@ def Q1_commands(o1, o2, o3, c1, c2, c3, shape):
     with frozen_time():
         try:
             rw = RW.REPLWrapper(child, P1, None, continuation_prompt=P2)
+            child.tmos = []
             if shape == 0:
-                r1 = rw.run_command('a')
-                r2 = rw.run_command('b')
+                r1 = rw.run_command('a', timeout=T)
+                r2 = rw.run_command('b', timeout=T)
                 ok = (r1 == o1) and (r2 == o2) and child.lines == ['a', 'b']
                 tag = 2
             elif shape == 1:
-                r1 = rw.run_command('a\nb')
-                r2 = rw.run_command('c')
+                r1 = rw.run_command('a\nb', timeout=T)
+                r2 = rw.run_command('c', timeout=T)
                 ok = (r1 == o1 + o2) and (r2 == o3) and child.lines == ['a', 'b', 'c']
                 tag = 3
             elif shape == 3:
-                r1 = rw.run_command('a\n\nb')
+                r1 = rw.run_command('a\n\nb', timeout=T)
                 ok = (r1 == o1 + o2 + o3) and child.lines == ['a', '', 'b']
                 tag = 5
             else:
                 try:
-                    rw.run_command('if x:')
+                    rw.run_command('if x:', timeout=T)
                     return 0
                 except ValueError:
                     pass
                 if len(child.kills) != 1:
                     return 0
-                r2 = rw.run_command('c')
+                r2 = rw.run_command('c', timeout=T)
                 ok = (r2 == o3) and child.lines == ['if x:', 'c']
                 tag = 4
         except Skip:
@@ -116,6 +134,8 @@ def Q1_commands(o1, o2, o3, c1, c2, c3, shape):
         return 0
     if len(child.script) != 0:
         return 0                                   # something the REPL printed was never consumed
+    if not _tmos_ok(child, shape, T):
+        return 0                                   # a wait for a prompt did not get the caller's timeout
     return tag
 
 
@@ -151,7 +171,8 @@ def _drive(coro, child, loop):
             thorough=dict(params=dict(o1=Text(2), o2=Text(2), o3=Text(2), c1=Int(0, 4), c2=Int(0, 4), c3=Int(0, 4)), timeout=3000),
             note='the awaited form run_command(..., async_=True) over a hand-driven event loop returns the same values '
                  '(same scripted REPL, output handed to the asyncio protocol piece by piece)')
-def Q2_commands_async(o1, o2, o3, c1, c2, c3, shape):
+def Q2_commands_async(o1, o2, o3, c1, c2, c3, shape, tmo=None):
+    T = TMOS[(pick(c1, 0, 3) if tmo is None else tmo) % 3]
     import pexpect._async_w_await as AW
     from harness.C14 import FakeAsyncio, Loop
     shape = pick(shape, 0, 3)
@@ -173,29 +194,30 @@ def Q2_commands_async(o1, o2, o3, c1, c2, c3, shape):
     with frozen_time(), patched(AW, asyncio=FakeAsyncio, _loop_getter=(lambda: loop)):
         try:
             rw = RW.REPLWrapper(child, P1, None, continuation_prompt=P2)       # start-up synchronisation: blocking
+            child.tmos = []
             if shape == 0:
-                r1 = _drive(rw.run_command('a', async_=True), child, loop)
-                r2 = _drive(rw.run_command('b', async_=True), child, loop)
+                r1 = _drive(rw.run_command('a', timeout=T, async_=True), child, loop)
+                r2 = _drive(rw.run_command('b', timeout=T, async_=True), child, loop)
                 ok = (r1 == o1) and (r2 == o2) and child.lines == ['a', 'b']
                 tag = 2
             elif shape == 1:
-                r1 = _drive(rw.run_command('a\nb', async_=True), child, loop)
-                r2 = _drive(rw.run_command('c', async_=True), child, loop)
+                r1 = _drive(rw.run_command('a\nb', timeout=T, async_=True), child, loop)
+                r2 = _drive(rw.run_command('c', timeout=T, async_=True), child, loop)
                 ok = (r1 == o1 + o2) and (r2 == o3) and child.lines == ['a', 'b', 'c']
                 tag = 3
             elif shape == 3:
-                r1 = _drive(rw.run_command('a\nb\nc', async_=True), child, loop)
+                r1 = _drive(rw.run_command('a\nb\nc', timeout=T, async_=True), child, loop)
                 ok = (r1 == o1 + o2 + o3) and child.lines == ['a', 'b', 'c']
                 tag = 5
             else:
                 try:
-                    _drive(rw.run_command('if x:', async_=True), child, loop)
+                    _drive(rw.run_command('if x:', timeout=T, async_=True), child, loop)
                     return 0
                 except ValueError:
                     pass
                 if len(child.kills) != 1:
                     return 0
-                r2 = _drive(rw.run_command('c', async_=True), child, loop)
+                r2 = _drive(rw.run_command('c', timeout=T, async_=True), child, loop)
                 ok = (r2 == o3) and child.lines == ['if x:', 'c']
                 tag = 4
         except Skip:
@@ -203,6 +225,8 @@ def Q2_commands_async(o1, o2, o3, c1, c2, c3, shape):
     if not ok:
         return 0
     if len(child.script) != 0:
+        return 0
+    if not _tmos_ok(child, shape, T):
         return 0
     return tag
 
